@@ -404,6 +404,8 @@ func (e *Engine) verifyLemma(c *Contract) *UnitResult {
 			}
 		}()
 		st := newState()
+		st.ghosts["$frontier"] = Sc{allocFrontier}
+		st.add(ILe(IntC(0), allocFrontier))
 		x.entry = st
 		env := map[string]cbind{}
 		bound := map[string]*Term{}
@@ -507,6 +509,8 @@ func (x *Exec) run() {
 	sig := u.Fn.Type().(*types.Signature)
 	x.sig = sig
 	st := newState()
+	st.ghosts["$frontier"] = Sc{allocFrontier}
+	st.add(ILe(IntC(0), allocFrontier))
 	x.loopOrd = numberLoops(u.Decl.Body)
 	x.litOrd = map[*ast.FuncLit]int{}
 	nlit := 0
